@@ -166,3 +166,131 @@ def _get_defaults(p):
             got[k] = "junk"
         return Extra(None, seen=seen)
     return run
+
+
+# ------------------------------------------------ C09 shape functions / indexing
+def decode_index(items, as_tuple=True):
+    out = []
+    for it in items:
+        t = it["t"]
+        if t == "int":
+            out.append(it["i"])
+        elif t == "slice":
+            out.append(slice(it["a"][0] if it["a"] else None, it["b"][0] if it["b"] else None,
+                             it["st"][0] if it["st"] else None))
+        elif t == "new":
+            out.append(None)
+        elif t == "ellipsis":
+            out.append(Ellipsis)
+        elif t == "list":
+            out.append(list(it["v"]))
+        elif t == "mask":
+            out.append(numpy.array(it["v"], dtype=bool).reshape(it["shape"]))
+        else:
+            raise ValueError(t)
+    return tuple(out) if as_tuple or len(out) != 1 else out[0]
+
+
+def _opt(p, key, default=None):
+    v = p.get(key, "none")
+    return default if isinstance(v, str) and v == "none" else v
+
+
+def _axis(p, key="axis"):
+    v = _opt(p, key)
+    return tuple(v) if isinstance(v, list) else v
+
+
+# fn(mod, p, *operands); mod is numpy or numpoly; "method" spellings use operand methods
+MOVES = {
+    "reshape": lambda m, p, a: m.reshape(a, tuple(p["shape"]) if isinstance(p["shape"], list) else p["shape"]),
+    "reshape_method": lambda m, p, a: a.reshape(tuple(p["shape"]) if isinstance(p["shape"], list) else p["shape"]),
+    "transpose": lambda m, p, a: m.transpose(a, _opt(p, "axes")),
+    "transpose_method": lambda m, p, a: a.transpose(*([] if _opt(p, "axes") is None else [p["axes"]])),
+    "T": lambda m, p, a: a.T,
+    "moveaxis": lambda m, p, a: m.moveaxis(a, p["source"], p["destination"]),
+    "expand_dims": lambda m, p, a: m.expand_dims(a, _axis(p)),
+    "atleast_1d": lambda m, p, *a: m.atleast_1d(*a),
+    "atleast_2d": lambda m, p, *a: m.atleast_2d(*a),
+    "atleast_3d": lambda m, p, *a: m.atleast_3d(*a),
+    "repeat": lambda m, p, a: (m.repeat(a, p["repeats"]) if p.get("axis", "omitted") == "omitted"
+                               else m.repeat(a, p["repeats"], axis=_axis(p))),
+    "tile": lambda m, p, a: m.tile(a, p["reps"]),
+    "concatenate": lambda m, p, *a: m.concatenate(list(a), axis=_axis(p)),
+    "stack": lambda m, p, *a: m.stack(list(a), axis=p["axis"]),
+    "hstack": lambda m, p, *a: m.hstack(list(a)),
+    "vstack": lambda m, p, *a: m.vstack(list(a)),
+    "dstack": lambda m, p, *a: m.dstack(list(a)),
+    "split": lambda m, p, a: m.split(a, p["sections"], axis=p["axis"]),
+    "array_split": lambda m, p, a: m.array_split(a, p["sections"], axis=p["axis"]),
+    "hsplit": lambda m, p, a: m.hsplit(a, p["sections"]),
+    "vsplit": lambda m, p, a: m.vsplit(a, p["sections"]),
+    "dsplit": lambda m, p, a: m.dsplit(a, p["sections"]),
+    "diag": lambda m, p, a: m.diag(a, k=p["k"]),
+    "diagonal": lambda m, p, a: m.diagonal(a, offset=p["offset"], axis1=p["axis1"], axis2=p["axis2"]),
+    "diagonal_method": lambda m, p, a: a.diagonal(offset=p["offset"], axis1=p["axis1"], axis2=p["axis2"]),
+    "broadcast_arrays": lambda m, p, *a: m.broadcast_arrays(*a),
+    "where": lambda m, p, x, y: m.where(numpy.array(p["cond"], dtype=bool).reshape(p["cshape"]), x, y),
+    "choose": lambda m, p, *a: m.choose(numpy.array(p["idx"], dtype=int).reshape(p["ishape"]), list(a), mode=p.get("mode", "raise")),
+    "full": lambda m, p, a: m.full(tuple(p["shape"]), a),
+    "full_like": lambda m, p, a, b: m.full_like(a, b),
+    "getitem": lambda m, p, a: a[decode_index(p["index"], p.get("tuple", True))],
+    "iter": lambda m, p, a: list(a),
+    "ravel": lambda m, p, a: a.ravel(),
+    "flatten": lambda m, p, a: a.flatten(),
+    "flat": lambda m, p, a: a.flat if hasattr(a.flat, "shape") else numpy.array(list(a.flat)),
+    "copy_method": lambda m, p, a: a.copy(),
+}
+MULTI_OUT = {"split", "array_split", "hsplit", "vsplit", "dsplit", "broadcast_arrays", "iter"}
+ATLEAST = {"atleast_1d", "atleast_2d", "atleast_3d"}
+
+
+def move_callable(p):
+    import numpoly
+    fn = p["fn"]
+    sp = p.get("spelling", "numpoly")
+    mod = numpy if sp == "numpy" else numpoly
+    f = MOVES[fn]
+
+    def run(*ops):
+        out = f(mod, p.get("p", {}), *ops)
+        if fn in ATLEAST and len(ops) == 1:
+            return [out]
+        if fn in MULTI_OUT or fn in ATLEAST:
+            return list(out)
+        return [out]
+    return run
+
+
+def gather_map(p, operand_shapes):
+    """What numpy does with the POSITIONS: run the same function on integer label
+    arrays (label = operand * 100000 + flat position + 1; 0 = filled with zero)."""
+    fn = p["fn"]
+    labels = []
+    for j, s in enumerate(operand_shapes, 1):
+        n = int(numpy.prod(s, dtype=int))
+        labels.append((numpy.arange(1, n + 1, dtype=numpy.int64) + j * 100000).reshape(s))
+    f = MOVES[fn]
+    out = f(numpy, p.get("p", {}), *labels)
+    if fn in ATLEAST and len(labels) == 1:
+        out = [out]
+    elif fn in MULTI_OUT or fn in ATLEAST:
+        out = list(out)
+    else:
+        out = [out]
+    maps = []
+    for o in out:
+        o = numpy.asarray(o)
+        src = [[int(v) // 100000, int(v) % 100000] if v else [0, 0] for v in o.ravel(order="C").tolist()]
+        maps.append({"shape": [int(x) for x in o.shape], "src": src})
+    return maps
+
+
+@action("move")
+def _move(p):
+    run = move_callable(p)
+
+    def call(*ops):
+        from .record import Multi
+        return Multi(run(*ops))
+    return call
